@@ -4,24 +4,125 @@ mod opts;
 mod session;
 mod sim;
 
-use std::io::Write;
+use rand::rngs::StdRng;
+use rand::{Rng, SeedableRng};
+use serde_json::{json, Value};
+use std::collections::HashMap;
+use std::fs::File;
+use std::io::{BufRead, BufReader, BufWriter, Write};
+
+fn parse_args(args: &[String]) -> HashMap<String, String> {
+    let mut m = HashMap::new();
+    let mut i = 0;
+    while i < args.len() {
+        if let Some(k) = args[i].strip_prefix("--") {
+            if i + 1 < args.len() && !args[i + 1].starts_with("--") {
+                m.insert(k.to_string(), args[i + 1].clone());
+                i += 2;
+            } else {
+                m.insert(k.to_string(), "1".to_string());
+                i += 1;
+            }
+        } else {
+            i += 1;
+        }
+    }
+    m
+}
+
+fn out_writer(path: Option<&String>) -> Box<dyn Write> {
+    match path {
+        Some(p) => Box::new(BufWriter::new(File::create(p).expect("cannot create output"))),
+        None => Box::new(BufWriter::new(std::io::stdout())),
+    }
+}
+
+fn cmd_walk(a: &HashMap<String, String>) -> i32 {
+    let profile = a.get("profile").cloned().unwrap_or("ops".into());
+    let runs: usize = a.get("runs").and_then(|s| s.parse().ok()).unwrap_or(10);
+    let seed: u64 = a.get("seed").and_then(|s| s.parse().ok()).unwrap_or(1);
+    let first: usize = a.get("first").and_then(|s| s.parse().ok()).unwrap_or(0);
+    let disc = a.get("disc").cloned().unwrap_or("wake".into());
+    let mut cfg = session::profile(&profile);
+    if let Some(s) = a.get("steps").and_then(|s| s.parse().ok()) {
+        cfg.steps = s;
+    }
+    let mut out = out_writer(a.get("out"));
+    let mut scripts = a.get("scripts").map(|p| BufWriter::new(File::create(p).expect("cannot create scripts file")));
+    for i in 0..runs {
+        let run = first + i;
+        let rseed = seed.wrapping_mul(1_000_003).wrapping_add(run as u64);
+        let mut rng = StdRng::seed_from_u64(rseed ^ 0x9e3779b97f4a7c15);
+        let r = match a.get("R").map(|s| s.as_str()) {
+            Some("absent") => None,
+            Some(x) => x.parse().ok(),
+            None => *[Some(1u16), Some(2), Some(3), Some(10), None].get(rng.gen_range(0..5)).unwrap(),
+        };
+        let m = a.get("M").and_then(|s| s.parse().ok());
+        let p = session::Params { run, fam: profile.clone(), r, m, disc: disc.clone(), ..Default::default() };
+        let (script, trace) = session::walk(&p, &cfg, rseed);
+        for l in trace {
+            writeln!(out, "{}", l).unwrap();
+        }
+        if let Some(w) = scripts.as_mut() {
+            writeln!(w, "{}", json!({"run": run, "seed": rseed, "steps": script})).unwrap();
+        }
+    }
+    writeln!(out, "{}", json!({"e": "end"})).unwrap();
+    0
+}
+
+fn cmd_script(a: &HashMap<String, String>) -> i32 {
+    // input: NDJSON, one {"run":..,"seed":..,"steps":[..]} per line (or a bare array of steps)
+    let path = a.get("in").expect("--in required");
+    let only: Option<usize> = a.get("run").and_then(|s| s.parse().ok());
+    let mut out = out_writer(a.get("out"));
+    let f = BufReader::new(File::open(path).expect("cannot open script file"));
+    for line in f.lines() {
+        let line = line.unwrap();
+        if line.trim().is_empty() {
+            continue;
+        }
+        let v: Value = serde_json::from_str(&line).expect("bad script line");
+        let (steps, seed, run) = match &v {
+            Value::Array(s) => (s.clone(), 0u64, None),
+            _ => (
+                v["steps"].as_array().cloned().unwrap_or_default(),
+                v["seed"].as_u64().unwrap_or(0),
+                v["run"].as_u64().map(|x| x as usize),
+            ),
+        };
+        if only.is_some() && run != only {
+            continue;
+        }
+        if steps.is_empty() {
+            continue;
+        }
+        for l in session::run_script(&steps, seed) {
+            writeln!(out, "{}", l).unwrap();
+        }
+    }
+    writeln!(out, "{}", json!({"e": "end"})).unwrap();
+    0
+}
 
 fn main() {
     let args: Vec<String> = std::env::args().collect();
     sim::install_quiet_panic_hook();
     let cmd = args.get(1).map(|s| s.as_str()).unwrap_or("");
+    let a = parse_args(&args[2.min(args.len())..]);
     let code = match cmd {
         "smoke" => {
-            let lines = session::smoke();
-            let out = std::io::stdout();
-            let mut o = out.lock();
-            for l in lines {
-                writeln!(o, "{}", l).unwrap();
+            for l in session::smoke() {
+                println!("{}", l);
             }
+            println!("{}", json!({"e": "end"}));
             0
         }
+        "walk" => cmd_walk(&a),
+        "script" => cmd_script(&a),
         _ => {
-            eprintln!("usage: pvh <smoke|...>");
+            eprintln!("usage: pvh <smoke|walk|script> [--key value ...]");
             2
         }
     };
